@@ -83,12 +83,13 @@ struct Ctx {
     // which the parent treats as "judged, restart after this case" instead of as an unexplained abort.
     char armed_buf[6000]; volatile int armed_len = 0;
     void arm_timeout(const std::string &clause, const std::vector<std::string> &cls_, const std::string &desc, int seconds) {
-        if (clause.empty()) { armed_len = -1; cnt["armed_without_verdict"]++; alarm(seconds); return; }   // only cut the case short (the verdict belongs to C15)
+        if (clause.empty()) { armed_len = -1; cnt["armed_without_verdict"]++; write_stat(false); alarm(seconds); return; }   // only cut the case short (the verdict belongs to C15)
         std::string cl = "[";
         for (size_t i = 0; i < cls_.size(); i++) cl += (i ? ",\"" : "\"") + jesc(cls_[i]) + "\"";
         cl += "]";
         int n = snprintf(armed_buf, sizeof armed_buf, "{\"t\":\"viol\",\"phase\":\"%s\",\"case\":%ld,\"clause\":\"%s\",\"classes\":%s,\"desc\":\"%s\",\"observed\":\"no return within %d s of CPU-bound execution\"}\n",
                          jesc(phase_).c_str(), idx, jesc(clause).c_str(), cl.c_str(), jesc(desc.substr(0, 1500)).c_str(), seconds);
+        write_stat(false);   // an armed exit must not lose the counters gathered since the last checkpoint
         fflush(out); armed_len = n < (int)sizeof armed_buf ? n : 0;
         alarm(seconds);
     }
